@@ -152,6 +152,16 @@ func msgOf(v any, alt bool) []byte {
 			return []byte{0}
 		}
 		return []byte{}
+	case "pfx": // messages longer than a hash that share their first 32 bytes (prefix from seed) and differ behind it
+		pre := make([]byte, 32)
+		rand.New(rand.NewSource(int64(drv.Num(m["seed"])))).Read(pre)
+		tail := int64(drv.Num(m["tail"]))
+		if alt {
+			tail += 1000
+		}
+		tb := make([]byte, 1+tail%97)
+		rand.New(rand.NewSource(int64(drv.Num(m["seed"]))*31 + tail)).Read(tb)
+		return append(pre, tb...)
 	case "long":
 		b = make([]byte, 1000)
 	default:
